@@ -58,6 +58,21 @@ def pushes_error(node):
     return False
 
 
+CRATE = None      # set by Table.__init__: lets classify_body look into small local helpers called from an arm
+
+
+def _has_optreport(body):
+    """a decision on the OptReport mode: in the arm itself or in a small local helper the arm calls"""
+    if any(n.get("k") == "match" and "OptReport" in n.get("sty", "") for n in walk(body)):
+        return True
+    if CRATE is not None:
+        from shared import helper_bodies
+        for hb in helper_bodies(CRATE, body, ret=None):
+            if any(n.get("k") == "match" and "OptReport" in n.get("sty", "") for n in walk(hb)):
+                return True
+    return False
+
+
 def classify_body(body, collecting):
     """accept / recurse / reject / unreachable / accept-report (accept after an optional report) / mixed"""
     if has_macro(body, ("unreachable",)) and not self_calls(body):
@@ -72,16 +87,19 @@ def classify_body(body, collecting):
         return "reject"
     if collecting and pushes_error(body):
         # the (_, Opt) fallback pushes only under OptReport::Error
-        if any(n.get("k") == "match" and "OptReport" in n.get("sty", "") for n in walk(body)):
+        if _has_optreport(body):
             return "accept-report"
         return "reject"
     if isinstance(b, dict) and b.get("k") == "block":
         tail = b.get("e")
-        if tail is not None and is_unit_ok(tail) and any(
-                n.get("k") == "match" and "OptReport" in n.get("sty", "") for n in walk(body)):
+        if tail is not None and is_unit_ok(tail) and _has_optreport(body):
             return "accept-report"
-        if tail is None and collecting and any(
-                n.get("k") == "match" and "OptReport" in n.get("sty", "") for n in walk(body)):
+        if tail is None and collecting and _has_optreport(body):
+            return "accept-report"
+    if isinstance(b, dict) and b.get("k") == "match" and b.get("src") == "Normal" and _has_optreport(body):
+        # `match report_helper(..) { Some(msg) => Err(..), None => Ok(()) }`: accepts unless the report mode turns the note into an error
+        arms = b.get("arms") or []
+        if arms and any(is_unit_ok(a["body"]) for a in arms) and all(is_unit_ok(a["body"]) or is_err_body(a["body"]) for a in arms):
             return "accept-report"
     return "mixed"
 
@@ -119,7 +137,9 @@ def guard_info(g, c=None):
 
 class Table:
     def __init__(self, facts, which):
+        global CRATE
         c = facts.crate("candid")
+        CRATE = c
         self.which = which
         self.fn = c.fn(CHECKERS[which])
         self.collecting = which == "subtype_collect_"
